@@ -35,7 +35,9 @@ BBox calc_difference(BBox const& a, BBox const& b, BoxOp op)
     }
     if (encloses(a, b))
     {
-        return (op == BoxOp::shrink ? b : a);
+        // Box with a hole: nothing is known to be inside the difference, and A
+        // encloses it
+        return (op == BoxOp::shrink ? BBox{} : a);
     }
     if (encloses(b, a))
     {
